@@ -222,6 +222,31 @@ var templates = []*template{
 		x := app.StringArg("X", "", "")
 		return outcome(app, []string{"t13", "-v", "-h"}, func() string { return fmt.Sprintf("v=%v X=%q", *v, *x) })
 	}},
+	{name: "T14 ambiguous repetition of optional positionals `[X | Y]... [Y]...`", run: func() string {
+		app := cli.App("t14", "")
+		app.ErrorHandling = flag.ContinueOnError
+		app.Spec = "[X | Y]... [Y]..."
+		x := app.StringsArg("X", nil, "")
+		y := app.StringsArg("Y", nil, "")
+		return outcome(app, []string{"t14", "p", "q", "r"}, func() string { return fmt.Sprintf("X=%q Y=%q", *x, *y) })
+	}},
+	{name: "T15 spec `[-ab] X` in an application that only declares a LONG option named ab (the spec is refused)", run: func() string {
+		app := cli.App("t15", "")
+		app.ErrorHandling = flag.ContinueOnError
+		app.Spec = "[-ab] X"
+		ab := app.BoolOpt("ab", false, "")
+		x := app.StringArg("X", "", "")
+		return outcome(app, []string{"t15", "--ab", "v"}, func() string { return fmt.Sprintf("ab=%v X=%q", *ab, *x) })
+	}},
+	{name: "T16 the byte-identical spec `[-ab] X` with the short flags a and b declared", run: func() string {
+		app := cli.App("t16", "")
+		app.ErrorHandling = flag.ContinueOnError
+		app.Spec = "[-ab] X"
+		a := app.BoolOpt("a", false, "")
+		b := app.BoolOpt("b", false, "")
+		x := app.StringArg("X", "", "")
+		return outcome(app, []string{"t16", "-ba", "v"}, func() string { return fmt.Sprintf("a=%v b=%v X=%q", *a, *b, *x) })
+	}},
 }
 
 // runTemplate sets the template's environment, builds and runs it in its own goroutine (an Exit ends it),
@@ -333,6 +358,26 @@ func soloOutcomes() []string {
 // ---- (a) sequential histories
 func runHistories(c *Ctx) {
 	solo := soloOutcomes()
+	if c.Shard == 0 && c.Begin("determinism") {
+		// rebuilding and rerunning the same application gives the same outcome, every time
+		const rebuilds = 120
+		for i, t := range templates {
+			first := ""
+			for k := 0; k < rebuilds; k++ {
+				out, se, ex := runTemplate(t)
+				got := describeRun(out, se, ex)
+				c.Count("evaluations", 1)
+				c.Count("rebuilds", 1)
+				if k == 0 {
+					first = got
+				} else if got != first {
+					c.Violation("C20", fmt.Sprintf("template %q rebuilt and rerun %d times in one process", t.name, rebuilds), Case{"mode": "rebuild", "template": i}, "every rebuild ends like the first: "+first, fmt.Sprintf("rebuild %d: %s", k, got))
+					break
+				}
+			}
+		}
+		c.Note("determinism", fmt.Sprintf("every template rebuilt and rerun %d times in one process, all outcomes identical", rebuilds))
+	}
 	// determinism of the solo run itself: a second fresh process gives the same outcome
 	solo2 := soloOutcomes()
 	for i := range solo {
@@ -411,6 +456,19 @@ func histNames(h []int) []string {
 func replayIndep(c *Ctx, cs Case) {
 	c20Install()
 	switch cStr(cs, "mode") {
+	case "rebuild":
+		t := templates[cInt(cs, "template")]
+		first := ""
+		for k := 0; k < 400; k++ {
+			out, se, ex := runTemplate(t)
+			got := describeRun(out, se, ex)
+			if k == 0 {
+				first = got
+			} else if got != first {
+				c.Violation("C20", fmt.Sprintf("template %q rebuilt and rerun %d times in one process", t.name, 120), cs, "every rebuild ends like the first: "+first, "a rebuild ended differently")
+				return
+			}
+		}
 	case "hist":
 		var hist []int
 		for _, x := range cs["history"].([]interface{}) {
